@@ -13,6 +13,8 @@ def run(rep, drv):
 	rep.rule = ('random single-product networks (<=%d nodes), all policies, lead times, capacities, four disruption types; '
 				'non-trivial = some period has a positive backorder; distinct by canonical spec' % (8 if th else 5))
 	simstream.run_stream(rep, drv, 'sim-trace', 2500 if th else 250, FIELDS, oracle, THEOREM, th, seed_off=2)
+	# customers with node index 0 and frequent disruptions (index 0 is legal and falsy; disruption bookkeeping is per customer index)
+	simstream.run_stream(rep, drv, 'sim-trace', 600 if th else 80, FIELDS, oracle, THEOREM, th, force={'label0': True, 'pdis': .8}, seed_off=102)
 	mplib.run_mp_stream(rep, drv, 'C02', THEOREM + ' + Props/MP (rm_conservation, rm_never_negative)', 400 if th else 50, th, seed_off=12)
 
 def replay_mp(rep, drv, doc):
